@@ -293,6 +293,11 @@ impl Envelope {
         if !assertions.iter().all(|a| a.is_subject_assertion() || a.is_subject_obscured()) {
             bail!(EnvelopeError::InvalidFormat);
         }
+        // Assertions read from an encoded node must already be in strictly
+        // ascending digest order, which also rules out repeated digests.
+        if !assertions.windows(2).all(|w| w[0].digest() < w[1].digest()) {
+            bail!(EnvelopeError::InvalidFormat);
+        }
         Ok(Self::new_with_unchecked_assertions(subject, assertions))
     }
 
